@@ -185,7 +185,8 @@ Definition pow_hash (hh : bytes) : bytes :=
 (* get_proof_of_work: int('0x' + hexlify(pow[::-1]), 16) *)
 Definition pow_value (raw : bytes) : N := le_decode (pow_hash (dsha raw)).
 
-(* validate_header for the header x whose predecessors are p (one below) and pp (two below) *)
+(* validate_header for the header x whose predecessors are p (one below) and pp (two below); the proof of work
+   is held against the target the header's own bits encode (they were just checked to be the demanded bits) *)
 Definition check_header (c : cfg) (pp p : option bytes) (x : bytes) : option reason :=
   match p with
   | None =>
@@ -198,7 +199,7 @@ Definition check_header (c : cfg) (pp p : option bytes) (x : bytes) : option rea
       else if validate_difficulty c then
         let t := next_target (max_target c) pp p in
         if negb (N.eqb (h_bits x) (compact t)) then Some RBits
-        else if N.ltb t (pow_value x) then Some RPow
+        else if N.ltb (from_compact (h_bits x)) (pow_value x) then Some RPow
         else None
       else None
   end.
@@ -266,18 +267,39 @@ Definition repair_fail (c : cfg) (start : nat) (hs : list bytes) : option nat :=
               else scan x (S start) r
   end.
 
-Definition repair (c : cfg) (s : st) (start : nat) : st :=
+(* the link scan of repair(): cut at one before the first broken link, if any *)
+Definition links_fail (c : cfg) (s : st) (start : nat) : option nat :=
   let whole := Nat.div (length (io s)) HS in
   let vend := visited_end start (hsize s) whole in
-  let hs := chunks (vend - start) (skipn (HS * start) (io s)) in
-  match repair_fail c start hs with
+  repair_fail c start (chunks (vend - start) (skipn (HS * start) (io s))).
+
+Definition repair_links (c : cfg) (s : st) (start : nat) : st :=
+  match links_fail c s start with
   | None => s
   | Some k => let io' := firstn (HS * (k - 1)) (io s) in
               mkSt io' (Nat.div (length io') HS) (missing s)
   end.
 
+(* every other header is vouched for by its successor's link; the tip has none: after a scan that found nothing
+   repair() validates it like connect() does (validate_chunk of that one header) and drops exactly it on failure *)
+Definition tip_check (c : cfg) (s : st) (start : nat) : st :=
+  let h := hsize s - 1 in
+  if Nat.leb 1 (hsize s) && Nat.leb (Nat.max start 1) h then
+    match check_header c (below2 (io s) h) (below1 (io s) h) (read (io s) h) with
+    | Some _ => let io' := firstn (HS * h) (io s) in
+                mkSt io' (Nat.div (length io') HS) (missing s)
+    | None => s
+    end
+  else s.
+
+Definition repair (c : cfg) (s : st) (start : nat) : st :=
+  match links_fail c s start with
+  | None => tip_check c s start
+  | Some _ => repair_links c s start
+  end.
+
 Definition repair_start (c : cfg) : nat :=
-  match max_key (checkpoints c) with None => 999 | Some m => m + CHUNK end.
+  match max_key (checkpoints c) with None => 0 | Some m => m + CHUNK end.
 
 (* open(): load the file, repair *)
 Definition load_repair (c : cfg) (file : bytes) : st :=
